@@ -287,6 +287,29 @@ func longLens(thorough bool) []int {
 	return out
 }
 
+// encAny / decAny: an injective coding of ints as values of type any in which neighbours print alike: 2k becomes the
+// string "2k+1", 2k+1 stays the int 2k+1 (equal under fmt, different under ==).
+func encAny(v int) any {
+	if v&1 == 0 {
+		return strconv.Itoa(v + 1)
+	}
+	return v
+}
+
+func decAny(x any) int {
+	switch t := x.(type) {
+	case int:
+		return t
+	case string:
+		n, err := strconv.Atoi(t)
+		if err != nil {
+			panic("harness: bad any-coded value " + t)
+		}
+		return n - 1
+	}
+	panic("harness: bad any-coded value")
+}
+
 // skewLens: how often the dominant value of a skewed long input occurs: around the widths of narrow counters and
 // around the thresholds a change introduced into the source (VERIF_SIZES).
 func skewLens(thorough bool) []int {
